@@ -74,6 +74,23 @@ func payload(id uint64, n int) []byte {
 	b := make([]byte, n)
 	x := simrt.NewRand(id)
 	x.Read(b)
+	// one write id in eleven carries a structured content: after a random head (which keeps the
+	// value unique) a run of zero bytes at the end, in the middle or everywhere - contents as
+	// sparse files, padded records and pre-allocated blobs have them
+	if id%11 == 7 && n > 16 {
+		body := b[9:]
+		run := []int{len(body), 4096, 8192, 32768, 40960, len(body) / 2}[int(id/11)%6]
+		if run > len(body) {
+			run = len(body)
+		}
+		at := len(body) - run // at the end
+		if (id/11)%5 == 4 {
+			at = (len(body) - run) / 2 // in the middle
+		}
+		for i := at; i < at+run; i++ {
+			body[i] = 0
+		}
+	}
 	return b
 }
 
